@@ -11,6 +11,8 @@ package main
 //   Cases_C06_enc   Object/Actor.MarshalJSON of a document with one text position vs doc_encode
 //   Cases_C06_dec   JSONGetNaturalLanguageField / GetAPSource on parsed documents, fresh and with unescaped keys
 //   Cases_C06_unm   LangRefValue.UnmarshalJSON, NaturalLanguageValues.UnmarshalJSON, Content.UnmarshalText
+//   Cases_C06_five  Object/Actor.MarshalJSON of a document with any subset of the five text positions vs
+//                   doc_encode5 (Model/Text5.v), and the five getters on the parsed document vs doc_decode5
 // Native evaluation (no model, oracle = the input bytes): every generated text x 5 positions x single / map
 // x JSON / gob on the real code; encoding/json as an independent reader of the written document.
 
@@ -557,6 +559,63 @@ func runC06(seed int64, n int, tier string, outDir string) (*Report, error) {
 		cwU.Add("(2, "+hx(d)+", "+coqOptNl(ap.NaturalLanguageValues{{Ref: "-", Value: c}})+")", label+" Content.UnmarshalText")
 	}
 
+	// all positions at once (Model/Text5.v): the document written for five lists and what the five getters read
+	hdr5 := "From AP.Model Require Import Prelude Vocab Nlv Text Text5.\n" +
+		"Definition tx5 (l : list nl) : texts := fun p => match p with\n" +
+		"  | PName => nth 0 l [] | PSummary => nth 1 l [] | PContent => nth 2 l []\n" +
+		"  | PPreferredUsername => nth 3 l [] | PSourceContent => nth 4 l [] end.\n" +
+		"Definition ok (c : bytes * list nl * bytes * bool * list nl) : bool :=\n" +
+		"  let '(ty, l, doc, ku, rd) := c in\n" +
+		"  bytes_eqb (doc_encode5 ty (tx5 l)) doc &&\n" +
+		"  match doc_decode5 ku doc with\n" +
+		"  | Ok f => nl_eqb (f PName) (nth 0 rd []) && nl_eqb (f PSummary) (nth 1 rd []) && nl_eqb (f PContent) (nth 2 rd [])\n" +
+		"            && nl_eqb (f PPreferredUsername) (nth 3 rd []) && nl_eqb (f PSourceContent) (nth 4 rd [])\n" +
+		"  | _ => match doc with [] => true | _ => false end\n" +
+		"  end.\n"
+	cw5 := NewCaseWriter(outDir, "Cases_C06_five", hdr5, "bytes * list nl * bytes * bool * list nl")
+	addFive := func(lists [5]ap.NaturalLanguageValues, actor bool, ku bool, label string) {
+		var it ap.Item
+		ty := "Note"
+		if actor {
+			a := &ap.Actor{Type: ap.PersonType, Name: lists[0], Summary: lists[1], Content: lists[2], PreferredUsername: lists[3]}
+			a.Source.Content = lists[4]
+			it, ty = a, "Person"
+		} else {
+			o := &ap.Object{Type: ap.NoteType, Name: lists[0], Summary: lists[1], Content: lists[2]}
+			o.Source.Content = lists[4]
+			lists[3] = nil
+			it = o
+		}
+		doc, err := it.(json.Marshaler).MarshalJSON()
+		if err != nil {
+			return
+		}
+		rd := make([]string, 5)
+		var p fastjson.Parser
+		v, perr := p.ParseBytes(append([]byte(nil), doc...))
+		for pos := 0; pos < 5; pos++ {
+			rd[pos] = "[]"
+			if perr != nil {
+				continue
+			}
+			if ku && pos == 0 {
+				_ = v.Get("no such key")
+			}
+			var got ap.NaturalLanguageValues
+			if pos == 4 {
+				got = ap.GetAPSource(v).Content
+			} else {
+				got = ap.JSONGetNaturalLanguageField(v, c06Term[pos])
+			}
+			rd[pos] = coqNl(got)
+		}
+		ls := make([]string, 5)
+		for k := range lists {
+			ls[k] = coqNl(lists[k])
+		}
+		cw5.Add(fmt.Sprintf("(%s, [%s], %s, %s, [%s])", hx([]byte(ty)), strings.Join(ls, "; "), hx(doc), cbool(ku), strings.Join(rd, "; ")), label)
+	}
+
 	// ------------------------------------------------------------ native evaluation + encoder/decoder cases
 	violate := func(op string, in any, want, got string, idx int) {
 		rep.Violate(Violation{Op: op, Input: in, Expected: want, Observed: got, Index: idx})
@@ -723,7 +782,21 @@ func runC06(seed int64, n int, tier string, outDir string) (*Report, error) {
 				addUnm(m, label+" map")
 			}
 		}
-		// all five positions at once
+		// all five positions at once: correspondence of the five-position models (every third text: all five
+		// set; otherwise a subset chosen by the index, shapes rotated)
+		if i%2 == 0 {
+			shapes := []ap.NaturalLanguageValues{single, multi, tagged, nil, mkMulti([]string{t.s, pool[g.Intn(len(pool))].s})}
+			var lists [5]ap.NaturalLanguageValues
+			for pos := 0; pos < 5; pos++ {
+				if i%3 == 0 || (i>>uint(pos+1))&1 == 1 {
+					lists[pos] = shapes[(pos+i/2)%len(shapes)]
+					if i%3 == 0 && lists[pos] == nil {
+						lists[pos] = single
+					}
+				}
+			}
+			addFive(lists, i%4 != 2, i%8 < 4, label+" five positions")
+		}
 		a := &ap.Actor{Type: ap.PersonType, Name: single, Summary: multi, Content: tagged, PreferredUsername: single}
 		a.Source.Content = multi
 		rep.Evaluations++
@@ -775,7 +848,15 @@ func runC06(seed int64, n int, tier string, outDir string) (*Report, error) {
 	for i := 0; i < nDocs/2; i++ {
 		addDec([]byte(genDoc(3)), fmt.Sprintf("seed=%d generated reader document %d", seed, i), false)
 	}
-	for _, w := range []*CaseWriter{cwN, cwE, cwD, cwU} {
+	for k, l := range oddLists {
+		var lists [5]ap.NaturalLanguageValues
+		for pos := 0; pos < 5; pos++ {
+			lists[pos] = oddLists[(k+pos)%len(oddLists)]
+		}
+		_ = l
+		addFive(lists, k%2 == 0, k%3 == 0, fmt.Sprintf("odd lists from %d, five positions", k))
+	}
+	for _, w := range []*CaseWriter{cwN, cwE, cwD, cwU, cw5} {
 		if err := rep.AddCases(w); err != nil {
 			return nil, err
 		}
